@@ -330,6 +330,7 @@ pub fn generate(stream: &str, tier: &str, seed: u64) -> Vec<String> {
     match stream {
         "l1.trie" => crate::gen_trie::gen_trie(&mut rng, thorough, &mut out),
         "l1.store" => gen_store(&mut rng, thorough, &mut out),
+        "l1.pb" => crate::gen_pb::gen_pb(&mut rng, thorough, &mut out),
         "l1.c14" => {
             // histories with every kind of read, verified (C14: the configuration matrix replays this stream)
             for i in 0..(if thorough { 6 } else { 2 }) {
